@@ -120,6 +120,13 @@ def facts_for(ts, e, method, cfg, s):
         f["fewer_intervals_assert"] = True
         f["rescaling_on"] = cfg.get("rescaling_intervals", 1000) >= 2
         f["few_mutations"] = bool(np.any(mcount == 0)) or ts.num_mutations < 2 * ts.num_nodes
+        parents = set(int(p) for p in ts.edges_parent)
+        # inputs on which the rescaling step is still fragile: samples that are not contemporary leaves, free leaves, or no mutation on any edge
+        children = set(int(c) for c in ts.edges_child)
+        leaves = [u for u in range(ts.num_nodes) if u in children and u not in parents]
+        smp = set(int(u) for u in ts.samples())
+        contemporary = all(ts.nodes_time[u] == 0 and u not in parents for u in smp) and all(u in smp for u in leaves)
+        f["noncontemporary_or_no_edge_mutations"] = bool((not contemporary) or mcount.sum() == 0)
     if isinstance(e, tskit.LibraryError):
         f["library_error"] = msg[:60]
         t = ts.nodes_time
